@@ -32,6 +32,8 @@ struct val
   virtual void idx_assign(unsigned, bool) = 0; // bf[e] = v
   virtual void proxy_moved_assign(unsigned, bool, bool &ret_ok) = 0; // proxy copy-constructed, move-constructed, then = v
   virtual void proxy_rebind_assign(unsigned i, unsigned j, bool v, bool &nowrite_ok) = 0; // p = bf[i]; q = bf[j]; p = q; p = v
+  virtual bool proxy_sees_write(unsigned i, bool v) = 0; // p = bf[i]; bf.set(i, v); return bool(p)  (a proxy is a live reference)
+  virtual bool const_proxy_rebind_read(unsigned i, unsigned j) const = 0; // const_reference p = cb[i], q = cb[j]; p = q; return bool(copy of p)
   virtual void or_idx_assign(unsigned, bool &ret_ok) = 0; // bf |= e
   virtual std::unique_ptr<val> or_idx(unsigned) const = 0; // bf | e
   virtual void poke(std::size_t k, ull x) = 0; // *(bf.array().begin() + k) = x
@@ -64,6 +66,16 @@ struct factory
   virtual std::unique_ptr<val> init(std::function<bool(unsigned)> const &) const = 0; // bitfield::init
   virtual std::unique_ptr<val> from_array(std::vector<ull> const &) const = 0; // object(array_type const &)
 };
+
+// fcppt::bit::shifted_mask<W>(k).get() and fcppt::bit::test<W>(x, shifted_mask<W>(k)) for the word type with `wbits` digits
+ull shifted_mask_w8(unsigned k);
+ull shifted_mask_w16(unsigned k);
+ull shifted_mask_w32(unsigned k);
+ull shifted_mask_w64(unsigned k);
+bool bit_test_w8(ull x, unsigned k);
+bool bit_test_w16(ull x, unsigned k);
+bool bit_test_w32(ull x, unsigned k);
+bool bit_test_w64(ull x, unsigned k);
 
 // one per storage word type (c10_w8.cpp ...); nullptr if there is no enum with n enumerators
 factory const *factory_w8(unsigned n);
